@@ -23,7 +23,11 @@ allocation identities: model vs real `is`-sharing), `yaqleval`, `provenance` (ba
 copy, either one parsing the text first: every evaluation judged by the options of the engine the host USED),
 `entry` (sessions of a host-built YaqlInterface around a plain / multi / linked context: calls with positional and
 keyword parameters, function stubs, `on(..)`, item access, the host's own bindings, interleaved statement
-evaluations; `yaql.create_context(data=..)`; full snapshots and history independence), `yaqlized`."""
+evaluations; `yaql.create_context(data=..)`; full snapshots and history independence), `yaqlized`,
+`regpool` (for EVERY registered function a pool of statements - documented examples, generated calls with every lambda
+parameter varied over lambdas of all shapes - evaluated in random order, twice each, against ONE prepared context and compared
+with a context made anew by `yaql.create_context()`: state hidden inside a registered function), `gagg`
+(`queries.GroupAggregator` against Model/GroupAgg.lean)."""
 import ast
 import copy
 import datetime
@@ -49,7 +53,7 @@ from gens import limitfacts
 from props import c10
 
 ID = 'C09'
-LEAN_MODULES = ['Yaql.Props.C09', 'Yaql.Props.C09Ctx', 'Yaql.Props.C09Eval', 'Yaql.Props.C09Gen', 'Yaql.Props.EvalStore',
+LEAN_MODULES = ['Yaql.Props.C09', 'Yaql.Props.C09Ctx', 'Yaql.Props.C09Eval', 'Yaql.Props.C09Gen', 'Yaql.Props.C09Reuse', 'Yaql.Props.EvalStore',
                 'Yaql.Props.C09Store', 'Yaql.Props.EvalStoreRefine', 'Yaql.Props.EvalStoreRefineM',
                 'Yaql.Props.EvalStoreRefineE']
 REQUIRED_THEOREMS = ['Yaql.Props.C09.' + n for n in (
@@ -59,7 +63,8 @@ REQUIRED_THEOREMS = ['Yaql.Props.C09.' + n for n in (
     'reeval', 'reeval_pool', 'context_clause_partial', 'interface_call_frame', 'interface_call_reads',
     'interface_history_independent', 'interface_probe_reads', 'eval_C09_full', 'eval_reeval_pool',
     'stmtOfEvalS_local', 'stmtOfEvalS_disciplined', 'evalS_C09_full', 'evalS_context_frame', 'evalS_only_dollar',
-    'evalS_only_dollar_reads', 'evalS_reeval_pool')] + [
+    'evalS_only_dollar_reads', 'evalS_reeval_pool', 'perCall_pool_independent', 'perCall_reeval', 'shared_harmless_newStyle',
+    'shared_breaks_reuse')] + [
         'Yaql.Props.C09Gen.no_param_mutation', 'Yaql.Props.C09Gen.table_nonvacuous'] + ['Yaql.Props.EvalStore.' + n for n in (
             'log_disciplined', 'writes_fresh', 'store_prefix_unchanged', 'store_extends', 'statement_only_dollar',
             'sim_callMethod', 'sim_callFn', 'sim_eval', 'refines_eval', 'refines_eval_value', 'refines_run')]
@@ -618,13 +623,15 @@ def spell(fd, args, kwargs, method):
 OVERLAP = {'list': 'list_str', 'dict': 'dict_flat', 'set': 'set_str'}
 
 
-def build_case(plan, target, vname, lam, method, variant, fill=None, source='data'):
+def build_case(plan, target, vname, lam, method, variant, fill=None, source='data', lams=None):
     """(text, data factory) for one sweep case, or None.  `fill`: {param: value name} for the other collection
-    positions; `source`: the values travel in the data (`$.aN`) or in variables of the host's context (`$vN`)"""
+    positions; `source`: the values travel in the data (`$.aN`) or in variables of the host's context (`$vN`);
+    `lams`: lambda texts for the lambda parameters in order (then `lam` is the default for the rest)"""
     fd = plan.fd
     data = {}
     args, kwargs = [], []
     fill = fill or {}
+    lams = list(lams or [])
 
     def slot(mk, kind='data'):
         if source == 'var':
@@ -645,7 +652,7 @@ def build_case(plan, target, vname, lam, method, variant, fill=None, source='dat
             return slot(VALUES[vname])
         kind, x = plan.filler[n]
         if kind == 'lambda':
-            return lam
+            return lams.pop(0) if lams else lam
         if kind == 'text':
             return x
         if kind == 'rule':
@@ -960,6 +967,602 @@ def run_pool(world, res, rng, tier, hist):
                          dict(part='pool', text=t, mode=mode, data=pyrepr(data), steps=steps[-20:]))
                 return
         res.traces += 1
+
+
+# ====================================================================================== registry pool (one prepared context, reused)
+#
+# "a parsed statement and a prepared context can be reused: evaluating the same statement again with equal data gives an
+# equal result" - for EVERY function of the library, in every style it can be called in.  State that makes a re-evaluation
+# differ need not sit in the context's variables or function sets (those are snapshotted elsewhere): it can hide inside a
+# registered function (a closure cell, an object built at registration time, a module global, a cache keyed by identity).
+# So: for every FunctionDefinition of the registry a pool of statements using it - its documented examples (`yaql>` lines of
+# the docstring) and generated calls over values / lambdas of different SHAPES (a lambda that treats its argument as a scalar,
+# a list, a [key, values] pair, two arguments ...: where a function accepts several call styles - groupBy's aggregator in the
+# current and in the 1.1.1 `[key, values]` style, an aggregator that raises on the first group - they all occur), successful
+# and failing ones.  The pools of a block of functions are evaluated in random order, every statement at least twice,
+# against ONE prepared context (the library context made once, a host chain on it; sometimes a child); each result is compared
+# with the result of the same statement on an equal, newly built document against a context made anew with
+# `yaql.create_context()` by an engine made anew.
+
+LAMBDA_SHAPES = ['$', 'true', '$1', '[$]', '$.len()', '$ + 1', '$[0]', '$[1]', '[$[0], $[1].len()]', '[$[0], $[1]]', '$1 + $2',
+                 '$.sum()', 'null', '$ > 1', '[$[0], $[1].sum()]', '$.toList()', '{k => $}', '$ = 1']
+EXAMPLE_RE = re.compile(r'^[ \t]*yaql>[ \t]*(\S.*?)[ \t]*$', re.M)
+
+
+def fresh_chain():
+    return host_chain(yaql.create_context(), [1, [2, 3]])
+
+
+def regpool_statements(world, rng, plans, tier, steer):
+    """{function key: [(text, data factories)]}: documented examples + generated calls.  For a function with lambda
+    parameters: a call that succeeds is looked for (on a scratch context - only to steer the generator), then every
+    lambda parameter in turn is varied over all LAMBDA_SHAPES with the others kept (so the later lambdas are REACHED: an
+    aggregator in every style, one that raises on the first group ..), plus other values and some random combinations"""
+    out = {}
+    per_plain = 3 if tier == 'quick' else 6
+    tries = 40 if tier == 'quick' else 120
+    for key, fd in sorted(world.reg.items()):
+        plan = plans.get(key)
+        stmts = []
+        for m in EXAMPLE_RE.finditer(fd.doc or ''):
+            stmts.append((m.group(1), {}))
+
+        def add(c):
+            if c is not None and c[0] not in [t for t, _ in stmts]:
+                stmts.append(c)
+        if plan is not None:
+            nlam = sum(1 for k in plan.filler.values() if k and k[0] == 'lambda')
+            spellings = ([False] if fd.is_function else []) + ([True] if fd.is_method else [])
+            targets = list(plan.admits) or [None]
+
+            def make(target, vname, fill, method, lams):
+                try:
+                    return build_case(plan, target, vname, '$', method, 'plain', fill, 'data', lams)
+                except Exception:       # noqa - a definition the generic speller cannot call
+                    return None
+
+            def draw():
+                target = rng.choice(targets)
+                vname = rng.choice(plan.admits[target]) if target else None
+                if target and nlam and rng.random() < 0.85:
+                    # (on an empty collection no lambda is ever applied)
+                    full = [v for v in plan.admits[target] if len(VALUES[v]()) > 1]
+                    vname = rng.choice(full) if full else vname
+                others = [n for n in plan.admits if n != target and plan.filler.get(n, (None,))[0] == 'data']
+                fill = {n: rng.choice(plan.admits[n]) for n in others} if others and rng.random() < 0.5 else None
+                return target, vname, fill, (rng.choice(spellings) if spellings else False)
+            if not nlam:
+                for _ in range(per_plain):
+                    add(make(*draw(), []))
+            else:
+                base, cands = None, []
+                for i in range(tries):
+                    shape = draw()
+                    lams = [rng.choice(LAMBDA_SHAPES) for _ in range(nlam)]
+                    c = make(*shape, lams)
+                    if c is None:
+                        continue
+                    if i < 3:
+                        add(c)
+                    cands.append((shape, lams, c))
+                outs = steer([(c[0], regpool_reprs(c[1])) for _, _, c in cands]) if cands else []
+                # (a call on an empty collection succeeds without ever applying a lambda: of the successful calls the one
+                # on the LARGEST values is varied)
+                found = [(len(pyrepr(materialise(c[1]))), -i, shape, lams, c)
+                         for i, ((shape, lams, c), o) in enumerate(zip(cands, outs)) if o.startswith("('ok'")]
+                if found:
+                    _, _, shape, lams, c = max(found, key=lambda f: f[:2])
+                    base = (shape, lams)
+                    add(c)
+                if base is not None:
+                    shape, lams = base
+                    for p in range(nlam):
+                        for sh in LAMBDA_SHAPES:
+                            add(make(*shape, lams[:p] + [sh] + lams[p + 1:]))
+                    for _ in range(3):                      # the same lambdas on other values
+                        add(make(*draw(), lams))
+        if stmts:
+            out[key] = stmts
+    return out
+
+
+def regpool_canon(v, depth=0):
+    """a finalised result as a value: containers by content (dicts and sets unordered), everything else by type and by
+    its repr without addresses (a context object handed back by let / def is `a Context`)"""
+    t = type(v)
+    if v is None or t is bool or t is int or t is str:
+        return (t.__name__, v)
+    if t is float:
+        return ('float', fkey(v))
+    if depth > 40:
+        return ('deep',)
+    if t is list or t is tuple:
+        return (t.__name__, tuple(regpool_canon(x, depth + 1) for x in v))
+    if t is dict or t is utils.FrozenDict:
+        return ('dict', tuple(sorted(((regpool_canon(k, depth + 1), regpool_canon(x, depth + 1)) for k, x in v.items()), key=repr)))
+    if t is set or t is frozenset:
+        return ('set', tuple(sorted((regpool_canon(x, depth + 1) for x in v), key=repr)))
+    return ('obj', t.__module__ + '.' + t.__name__, re.sub(r'0x[0-9a-fA-F]+', '0x', repr(v))[:120])
+
+
+def regpool_outcome(out):
+    """comparable text of ('ok', value) | ('err', class name)"""
+    if out[0] == 'err':
+        return repr(('err', out[1]))
+    try:
+        return repr(('ok', regpool_canon(out[1])))
+    except Exception as e:      # noqa
+        return repr(('uncomparable', type(e).__name__))
+
+
+NO_CONTEXT = '<no context argument>'
+DATALESS = ['$', '[$, 1]', '$ = null', 'coalesce($, 0)', '$.len()', 'let(x => $) -> $x']
+REGPOOL_OPTIONS = {'yaql.memoryQuota': 4000000, 'yaql.limitIterators': 100}
+_RP_ENGINES = {}
+
+
+def regpool_engine(mode):
+    if mode not in _RP_ENGINES:
+        _RP_ENGINES[mode] = yaql.YaqlFactory().create(options=dict(REGPOOL_OPTIONS, **{'yaql.convertInputData': mode}))
+    return _RP_ENGINES[mode]
+
+
+def regpool_call(fn, timeout=2.0):
+    signal.signal(signal.SIGALRM, _alarm)
+    signal.setitimer(signal.ITIMER_REAL, timeout)
+    try:
+        try:
+            return ('ok', fn())
+        finally:
+            signal.setitimer(signal.ITIMER_REAL, 0)
+    except Timeout:
+        return ('err', 'Timeout')
+    except RecursionError:
+        return ('err', 'RecursionError')
+    except Exception as e:      # noqa
+        return ('err', type(e).__name__)
+
+
+def regpool_run_steps(mode, steps, contexts=None, cache=None):
+    """the outcomes (texts) of evaluations in order: steps = [[context key, on a child?, text, {name: repr of the value}]];
+    every context key stands for ONE prepared context (`yaql.create_context()` + the host chain), made when first used"""
+    eng = regpool_engine(mode)
+    contexts = {} if contexts is None else contexts
+    cache = {} if cache is None else cache
+    outs = []
+    for key, on_child, text, reprs in steps:
+        if key == NO_CONTEXT:
+            ctx = None
+        else:
+            if key not in contexts:
+                contexts[key] = fresh_chain()
+            ctx = contexts[key].create_child_context() if on_child else contexts[key]
+        st = cache.get(text)
+        if st is None:
+            try:
+                st = cache[text] = eng(text)
+            except Exception as e:      # noqa
+                outs.append(repr(('err', 'parse:' + type(e).__name__)))
+                continue
+        if reprs is None:
+            # the form of the README without data: `engine(expr).evaluate()` - only ever without a context (on a context the
+            # host supplies, `$` is what the host or an earlier `evaluate(data=..)` bound there: that is the property's own exception)
+            outs.append(regpool_outcome(regpool_call(lambda: st.evaluate())))
+            continue
+        data = {k: eval(v, dict(PYNS)) for k, v in reprs.items()}      # noqa: S307 - our own reprs
+        if ctx is None:
+            outs.append(regpool_outcome(regpool_call(lambda: st.evaluate(data=data))))      # `engine(expr).evaluate(data=doc)`
+        else:
+            outs.append(regpool_outcome(regpool_call(lambda: st.evaluate(data=data, context=ctx))))
+    return outs
+
+
+def fresh_server_main():
+    """a pristine interpreter: yaql imported, engines made, NOTHING evaluated.  Every request line `{"mode": bool, "jobs":
+    [steps, ..]}` is answered by `[[outcome texts of the job's steps], ..]`, each job run in a FORK of this process made for it:
+    whatever an evaluation leaves behind - in a context, in a registered function, in a module - is gone with the child."""
+    for m in (True, False):
+        regpool_engine(m)
+    out = sys.stdout
+    width = 5                   # children at a time
+    for line in sys.stdin:
+        req = json.loads(line)
+        jobs = req['jobs']
+        answers = [None] * len(jobs)
+        running, nxt = [], 0
+        while nxt < len(jobs) or running:
+            while nxt < len(jobs) and len(running) < width:
+                r, w = os.pipe()
+                pid = os.fork()
+                if pid == 0:
+                    try:
+                        os.close(r)
+                        import random
+                        random.seed()       # (a fork inherits the parent's generator state: every child would draw alike)
+                        os.write(w, json.dumps(regpool_run_steps(req['mode'], jobs[nxt])).encode('utf8'))
+                    finally:
+                        os._exit(0)
+                os.close(w)
+                running.append((nxt, pid, r))
+                nxt += 1
+            i, pid, r = running.pop(0)
+            chunks = []
+            while True:
+                c = os.read(r, 1 << 16)
+                if not c:
+                    break
+                chunks.append(c)
+            os.close(r)
+            os.waitpid(pid, 0)
+            try:
+                answers[i] = json.loads(b''.join(chunks).decode('utf8'))
+            except ValueError:
+                answers[i] = None
+        out.write(json.dumps(answers) + '\n')
+        out.flush()
+
+
+class FreshServer:
+    def __init__(self):
+        import subprocess
+        hdir = os.path.dirname(os.path.dirname(os.path.abspath(__file__)))
+        self.p = subprocess.Popen([sys.executable, '-W', 'ignore', '-c',
+                                   'import sys; sys.path.insert(0, %r); import common; from props import c09; '
+                                   'c09.fresh_server_main()' % hdir],
+                                  stdin=subprocess.PIPE, stdout=subprocess.PIPE, text=True, cwd='/tmp')
+
+    def jobs(self, mode, jobs):
+        self.p.stdin.write(json.dumps({'mode': mode, 'jobs': jobs}) + '\n')
+        self.p.stdin.flush()
+        line = self.p.stdout.readline()
+        if not line:
+            raise RuntimeError('the fresh-process server died')
+        return json.loads(line)
+
+    def fresh(self, mode, text, reprs):
+        """the statement in a process that has evaluated nothing else, on a context made anew"""
+        r = self.jobs(mode, [[['ref', True, text, reprs]]])[0]
+        return r[0] if r else None
+
+    def replay(self, mode, steps):
+        r = self.jobs(mode, [steps])[0]
+        return r[-1] if r else None
+
+    def close(self):
+        try:
+            self.p.stdin.close()
+            self.p.wait(timeout=5)
+        except Exception:       # noqa
+            self.p.kill()
+
+
+def regpool_confirm(server, mode, log, i):
+    """evaluation number i of the log gave another result than a process that evaluated nothing else: is that a fact about
+    the history?  The statement must give the same in two more fresh processes, and the logged history, replayed in a fresh
+    process, must reproduce the OBSERVED result (twice).  -> (shrunk steps, observed, expected) or None"""
+    key, on_child, text, reprs, observed = log[i]
+    f1, f2 = server.fresh(mode, text, reprs), server.fresh(mode, text, reprs)
+    if f1 is None or f1 != f2 or f1 == observed or 'Timeout' in f1:
+        return None
+    steps = [st[:4] for st in log[:i + 1]]
+
+    def reproduces(hs):
+        return server.replay(mode, hs) == observed
+    if not (reproduces(steps) and reproduces(steps)):
+        return None
+    # shrink: the longest droppable prefix (bisection), then single evaluations of what is left
+    lo, hi = 0, len(steps) - 1          # steps[lo:] reproduces; find the largest such lo
+    while lo < hi:
+        mid = (lo + hi + 1) // 2
+        if reproduces(steps[mid:]):
+            lo = mid
+        else:
+            hi = mid - 1
+    steps = steps[lo:]
+    j, budget = 0, 80
+    chunk = max(1, (len(steps) - 1) // 8)
+    while chunk >= 1 and budget > 0:
+        j = 0
+        while j < len(steps) - 1 and budget > 0:
+            cand = steps[:j] + steps[min(j + chunk, len(steps) - 1):]
+            budget -= 1
+            if len(cand) < len(steps) and reproduces(cand):
+                steps = cand
+            else:
+                j += chunk
+        chunk //= 2
+    if not reproduces(steps):
+        return None
+    return steps, observed, f1
+
+
+def regpool_pretty(text):
+    """a canonical outcome text as something a person reads"""
+    def un(c):
+        if not isinstance(c, tuple) or not c:
+            return c
+        if c[0] in ('list', 'tuple'):
+            return (list if c[0] == 'list' else tuple)(un(x) for x in c[1])
+        if c[0] == 'dict':
+            return {repr(un(k)) if isinstance(un(k), (list, dict, set)) else un(k): un(v) for k, v in c[1]}
+        if c[0] == 'set':
+            return 'set(%s)' % ', '.join(repr(un(x)) for x in c[1])
+        if c[0] == 'float':
+            return struct.unpack('>d', bytes.fromhex(c[1]))[0] if isinstance(c[1], str) else c[1]
+        if c[0] == 'obj':
+            return '<%s>' % c[1]
+        return c[1] if len(c) == 2 else c
+    try:
+        o = eval(text, {})       # noqa: S307 - our own canonical text
+        return 'raises %s' % o[1] if o[0] == 'err' else repr(un(o[1]))[:300]
+    except Exception:           # noqa
+        return text[:300]
+
+
+def regpool_report(res, mode, hs, got, exp):
+    keys = []
+    for st in hs:
+        if st[0] not in keys and st[0] != NO_CONTEXT:
+            keys.append(st[0])
+
+    def line(st):
+        if st[0] == NO_CONTEXT:
+            return 'engine(%r).evaluate(%s) [no context argument]' % (
+                st[2], '' if st[3] is None else 'data={%s}' % ', '.join('%r: %s' % kv for kv in st[3].items()))
+        where = 'context %d' % (keys.index(st[0]) + 1) if len(keys) > 1 else 'the context'
+        return '%s on %s [%s%s]' % (st[2], '{%s}' % ', '.join('%r: %s' % kv for kv in st[3].items()), 'a child of ' if st[1] else '', where)
+    res.fail('oracle', 'reuse-differs',
+             'registry pool: in ONE process, against %s prepared with yaql.create_context() (yaql.convertInputData=%s), the '
+             'evaluations %s make the last one give %s; the same statement on an equal document, in a process that evaluated '
+             'nothing else, against a context made anew gives %s' % (
+                 'one context' if len(keys) <= 1 else '%d contexts' % len(keys), mode, ' ; then '.join(line(st) for st in hs),
+                 regpool_pretty(got), regpool_pretty(exp)),
+             dict(part='regpool', mode=mode, steps=hs))
+
+
+def function_names(st):
+    """names of all functions / operators a parsed statement calls"""
+    out = set()
+
+    def walk(e):
+        if isinstance(e, expressions.Statement):
+            return walk(e.expression)
+        if isinstance(e, expressions.Function):
+            out.add(e.name)
+            for a in e.args:
+                walk(a)
+        elif isinstance(e, expressions.Wrap):
+            walk(e.expr)
+        elif isinstance(e, expressions.MappingRuleExpression):
+            walk(e.source)
+            walk(e.destination)
+    walk(st)
+    return out
+
+
+def regpool_reprs(data_mk):
+    return {k: pyrepr(mk()) for k, mk in data_mk.items()}
+
+
+def regpool_impure(server, pools, hist):
+    """names of functions that are not functions of their arguments BY NATURE (now, random ..): three consecutive
+    evaluations of a statement differ, and so do evaluations in 12 processes that evaluated nothing else (each seeds its
+    random source anew).  Statements calling them are outside the property's quantifier ("with equal data gives an equal
+    result").  (A statement that varies on one context while pristine processes agree stays in the pools: the histories
+    below judge it.)"""
+    eng = regpool_engine(True)
+    impure = set()
+    stmts = [(t, regpool_reprs(d)) for key in sorted(pools) for t, d in pools[key]]
+    outs = server.jobs(True, [[['probe', True, t, r] for t, r in stmts for _ in range(3)]])[0] or []
+    varying = []
+    for i, (t, r) in enumerate(stmts):
+        o = outs[3 * i:3 * i + 3]
+        if len(set(o)) > 1 and not any('Timeout' in x for x in o):
+            try:
+                varying.append((function_names(eng(t)), t, r))
+            except Exception:       # noqa
+                pass
+    for names, text, reprs in sorted(varying, key=lambda v: len(v[0])):
+        if names & impure:
+            continue            # explained by a function already named (the smallest explanation first)
+        fresh = [r[0] if r else None for r in server.jobs(True, [[['ref', True, text, reprs]]] * 12)]
+        if len(set(fresh)) > 1:
+            impure |= names
+    hist['regpool-functions-not-determined-by-their-arguments'] = sorted(impure)
+    return impure
+
+
+def run_regpool(world, res, rng, tier, hist, plans=None):
+    """every evaluation of this part happens in a FORK of one pristine server process (`FreshServer`): a block's history in
+    one child (one process, one prepared context), every reference in a child of its own; this process only compares"""
+    if plans is None:
+        plans = {}
+        for key, fd in sorted(world.reg.items()):
+            try:
+                plans[key] = Plan(world, key, fd)
+            except Exception:       # noqa
+                pass
+    server = FreshServer()
+    try:
+        pools = regpool_statements(world, rng, plans, tier,
+                                   lambda cands: server.jobs(True, [[['steer', True, t, r] for t, r in cands]])[0] or [])
+        impure = regpool_impure(server, pools, hist)
+        if impure:
+            eng0 = regpool_engine(True)
+
+            def pure(text):
+                try:
+                    return not (function_names(eng0(text)) & impure)
+                except Exception:       # noqa
+                    return True
+            pools = {k: [(t, d) for t, d in v if pure(t)] for k, v in pools.items()}
+            pools = {k: v for k, v in pools.items() if v}
+        keys = sorted(pools)
+        rng.shuffle(keys)
+        block = 12
+        hist['regpool-functions'] = len(keys)
+        hist['regpool-statements'] = sum(len(v) for v in pools.values())
+        hist['regpool-documented-examples'] = sum(1 for v in pools.values() for t, d in v if not d)
+        hist['regpool-largest-pools'] = sorted(((len(v), k) for k, v in pools.items()), reverse=True)[:5]
+        hist['regpool-functions-with-two-or-more-statements'] = sum(1 for v in pools.values() if len(v) >= 2)
+        t0 = time.time()
+        budget = 50 if tier == 'quick' else 400
+        for b in range(0, len(keys), block):
+            if time.time() - t0 > budget:
+                hist['regpool-budget-cut-at-function'] = b
+                break
+            mode = (b // block) % 4 != 3          # mostly with input conversion (the default), a quarter raw
+            stmts = [(k, t, regpool_reprs(d)) for k in keys[b:b + block] for t, d in pools[k]]
+            # references: every statement in a process of its own that has evaluated nothing else, on a context made anew
+            refs = server.jobs(mode, [[['ref', True, t, reprs]] for _, t, reprs in stmts])
+            ref = {(k, t): (r[0] if r else None) for (k, t, _), r in zip(stmts, refs)}
+            # the history: ONE process, ONE prepared context, every statement of the block twice, in random order
+            order = stmts * 2
+            rng.shuffle(order)
+            # ... one in 25 in the form of the README, `engine(expr).evaluate(data=doc)` WITHOUT a context argument, and a
+            # dozen evaluations without data AND without context in between (`$` is null there, whatever ran before)
+            dataless = [('<dataless>', t, None) for t in rng.sample(DATALESS, 4)] + [
+                ('<dataless>', t, None) for _, t, _ in rng.sample(stmts, min(8, len(stmts)))]
+            for d in dataless:
+                order.insert(rng.randrange(len(order) // 3, len(order) + 1), d)
+            steps = [[NO_CONTEXT if (reprs is None or rng.random() < 0.04) else 'the context', rng.random() < 0.3, t, reprs]
+                     for _, t, reprs in order]
+            for (k, t, reprs), r in zip(dataless, server.jobs(mode, [[[NO_CONTEXT, False, t, None]] for _, t, _ in dataless])):
+                ref[(k, t)] = r[0] if r else None
+            outs = server.jobs(mode, [steps])[0]
+            if outs is None:
+                hist['regpool-blocks-without-an-answer'] = hist.get('regpool-blocks-without-an-answer', 0) + 1
+                continue
+            for i, ((k, text, reprs), out) in enumerate(zip(order, outs)):
+                res.case(('regpool', k, text, mode), nontrivial=out.startswith("('ok'"))
+                hist['regpool-' + out[2:4]] = hist.get('regpool-' + out[2:4], 0) + 1
+                exp = ref[(k, text)]
+                if exp is not None and out != exp and 'Timeout' not in out and 'Timeout' not in exp:
+                    c = regpool_confirm(server, mode, [st + [o] for st, o in zip(steps, outs)], i)
+                    if c is None:
+                        hist['regpool-differences-not-confirmed'] = sorted(set(hist.get('regpool-differences-not-confirmed', []) + [text]))[:30]
+                        continue
+                    regpool_report(res, mode, *c)
+                    return
+            res.traces += 1
+    finally:
+        server.close()
+
+
+# ====================================================================================== groupBy's aggregator object
+GAGG_BEHAVIOURS = ['const', 'len', 'pairlen', 'first2', 'res', 'res2', 'oth', 'str2', 'echo', 'old', 'new']
+
+
+def gagg_function(beh):
+    """a user aggregator: what it does with a list of values / with a `(key, values)` pair"""
+    def act(b, arg):
+        if b == 'const':
+            return 7
+        if b == 'len':
+            return len(arg)
+        if b == 'pairlen':
+            return [arg[0], len(arg[1])]            # `[$[0], $[1].len()]`: IndexError / TypeError on what it does not fit
+        if b == 'first2':
+            return [arg[0], 'x']
+        if b == 'res':
+            e = IndexError('list index out of range')
+            e.tag = 1
+            raise e
+        if b == 'res2':
+            e = yexc.NoMatchingMethodException('sum', arg)
+            e.tag = 2
+            raise e
+        if b == 'oth':
+            e = ValueError('no')
+            e.tag = 3
+            raise e
+        if b == 'str2':
+            return 'ab'
+        if b == 'old':
+            if not isinstance(arg, tuple):
+                e = yexc.NoMatchingFunctionException('#indexer')
+                e.tag = 4
+                raise e
+            return [arg[0], len(arg[1])]
+        if b == 'new':
+            if isinstance(arg, tuple):
+                e = yexc.NoMatchingMethodException('len', arg)
+                e.tag = 5
+                raise e
+            return len(arg)
+        return arg
+
+    def f(arg):
+        return act(beh[1] if isinstance(arg, tuple) else beh[0], arg)
+    return f
+
+
+def gagg_outcome(fn):
+    try:
+        return {'ok': c10_values_enc(fn())}
+    except (yexc.NoMatchingMethodException, yexc.NoMatchingFunctionException, IndexError) as e:
+        return {'res': getattr(e, 'tag', 900)}
+    except Exception as e:      # noqa
+        return {'oth': getattr(e, 'tag', 901)}
+
+
+def c10_values_enc(v):
+    import values
+    return values.enc(v)
+
+
+def run_gagg(world, drv, res, rng, tier, hist):
+    """`queries.GroupAggregator.__call__` against `Model/GroupAgg.lean` (`call`, `run`, `poolPerCall`, `poolShared`): pools of
+    groupBy evaluations with aggregators of every style, run per call (the code's lifetime of the aggregator object) and
+    with ONE object's state carried from evaluation to evaluation (the contrasting design of `Props.C09.shared_breaks_reuse`)"""
+    if drv is None:
+        return
+    n = 150 if tier == 'quick' else 1500
+    for i in range(n):
+        allow = rng.random() < 0.8
+        stmts = []
+        for _ in range(rng.choice([1, 2, 2, 3, 4])):
+            beh = (rng.choice(GAGG_BEHAVIOURS), rng.choice(GAGG_BEHAVIOURS))
+            keys = rng.sample(['a', 'b', 'c', 1, 2, None], rng.choice([1, 2, 2, 3]))
+            groups = [(k, [rng.choice([1, 2, 'a', k]) for _ in range(rng.choice([1, 2, 2, 3]))]) for k in keys]
+            stmts.append((beh, groups))
+        for shared in (False, True):
+            real = []
+            carry = None
+            for beh, groups in stmts:
+                try:
+                    ga = yqueries.GroupAggregator(gagg_function(beh), allow)
+                    if shared and carry is not None:
+                        ga.allow_fallback, ga._failure_info = carry
+                    carry = (ga.allow_fallback, ga._failure_info)
+                except (TypeError, AttributeError) as e:
+                    # the class is not the one the model mirrors any more: the tie is broken (no failing input here - the
+                    # property itself is judged by the registry pool above)
+                    res.fail('mismatch', 'gagg-model', 'queries.GroupAggregator(aggregator, allow_fallback) with the state '
+                             '(allow_fallback, _failure_info) is not what Model/GroupAgg.lean mirrors any more: %r' % (e,),
+                             dict(part='gagg'))
+                    return
+                out = gagg_outcome(lambda: [ga(item) for item in dict((k, list(v)) for k, v in groups).items()])
+                carry = (ga.allow_fallback, ga._failure_info)
+                real.append({'ok': out['ok']['li']} if 'ok' in out else {'err': out})
+            req = dict(op='gagg', allow=allow, shared=shared, stmts=[
+                dict(agg=[[c10_values_enc(arg), gagg_outcome(lambda arg=arg: gagg_function(beh)(arg))]
+                          for k, vs in groups for arg in (list(vs), (k, list(vs)))],
+                     groups=[[c10_values_enc(k), [c10_values_enc(v) for v in vs]] for k, vs in groups])
+                for beh, groups in stmts])
+            model = drv.ask({'p': 'C09', 'cases': [req]})['res'][0]['outs']
+            res.case(('gagg', i, shared), nontrivial=len(stmts) > 1)
+            res.traces += 1
+            hist['gagg-' + ('shared' if shared else 'per-call')] = hist.get('gagg-' + ('shared' if shared else 'per-call'), 0) + 1
+            for r in real:
+                k = 'gagg-outcome-' + ('ok' if 'ok' in r else 'res' if 'res' in r['err'] else 'oth')
+                hist[k] = hist.get(k, 0) + 1
+            if model != real:
+                res.fail('mismatch', 'gagg-model', 'GroupAggregator (%s, allow_fallback=%s) over %s: real %s, model %s' % (
+                    'one object shared by the evaluations' if shared else 'one object per call', allow,
+                    [(b, g) for b, g in stmts], json.dumps(real)[:400], json.dumps(model)[:400]),
+                    dict(part='gagg'))
+                return
 
 
 def run_yaqleval(world, res, rng, tier, hist):
@@ -1966,14 +2569,30 @@ def replay_case(world, drv, res, case, hist):
                 what, case['text'], case['mode'], case['data']), case)
         res.case(('replay', case['text']))
         return True
+    if part == 'regpool' and 'steps' in case:
+        mode, steps = case['mode'], case['steps']
+        server = FreshServer()
+        try:
+            got = server.replay(mode, steps)
+            exp = server.fresh(mode, steps[-1][2], steps[-1][3])
+        finally:
+            server.close()
+        res.case(('replay', steps[-1][2]))
+        if got != exp:
+            regpool_report(res, mode, steps, got, exp)
+        return True
     if part == 'evalstore':
         from props import evalstore
         evalstore.run(dict(driver=drv, tier=case.get('tier', 'quick'), seed=case.get('seed', 0), replay_case=case), res, hist, ID)
         return True
-    if part in ('pool', 'ctx', 'conv', 'yaqlized', 'yaqleval', 'provenance', 'entry') and 'seed' in case:
+    if part in ('pool', 'ctx', 'conv', 'yaqlized', 'yaqleval', 'provenance', 'entry', 'regpool', 'gagg') and case.get('seed') is not None:
         rng = common.make_rng(case['seed'], ID + part)
         tier = case.get('tier', 'quick')
-        if part == 'pool':
+        if part == 'regpool':
+            run_regpool(world, res, rng, tier, hist)
+        elif part == 'gagg':
+            run_gagg(world, drv, res, rng, tier, hist)
+        elif part == 'pool':
             run_pool(world, res, rng, tier, hist)
         elif part == 'ctx':
             run_ctx(world, drv, res, rng, tier, hist)
@@ -2019,9 +2638,18 @@ def run(env, res):
     t0 = time.time()
     cases, plans = sweep_cases(world, rng, tier, focus)
     hist['sweep-cases'] = len(cases)
+    # the registry pool comes FIRST: so far this process has evaluated nothing, and everything it evaluates from here on is
+    # logged - a result that differs from the one of a pristine process can then be traced to the evaluations before it
+    t1 = time.time()
+    run_regpool(world, res, common.make_rng(env['seed'], ID + 'regpool'), tier, hist, plans)
+    hist['seconds-regpool'] = round(time.time() - t1, 1)
+    if res.failures:
+        res.extra['histogram'] = hist
+        return
+    t0 = time.time()
     entered = set()
     first_fail = None
-    budget = 50 if tier == 'quick' else 400
+    budget = 36 if tier == 'quick' else 400
     order = list(range(len(cases)))
     rng.shuffle(order)          # a budget cut drops a random subset, not the tail of the alphabet
     if focus:
@@ -2071,7 +2699,8 @@ def run(env, res):
     hist['collection-functions-never-entered'] = sorted(coll - hit)[:40]
     hist['collection-functions-never-reached-by-a-raw-container'] = sorted(coll - raw)[:60]
     hist['seconds-sweep'] = round(time.time() - t0, 1)
-    for part, fn in (('pool', lambda r: run_pool(world, res, r, tier, hist)),
+    for part, fn in (('gagg', lambda r: run_gagg(world, drv, res, r, tier, hist)),
+                     ('pool', lambda r: run_pool(world, res, r, tier, hist)),
                      ('ctx', lambda r: run_ctx(world, drv, res, r, tier, hist)),
                      ('conv', lambda r: run_conv(world, drv, res, r, tier, hist)),
                      ('yaqleval', lambda r: run_yaqleval(world, res, r, tier, hist)),
@@ -2131,7 +2760,11 @@ LEVEL_TEXT = ('Lean 4 theorems over (1) a model of utils.convert_input_data / co
               'interfaces around the three context classes, create_context(data=..) and yaql.eval with the same snapshots, and '
               'engines derived by engine.copy / per-call options from engines with other conversion options, each evaluation '
               'judged by the options of the engine the host used.')
-LEVEL_NOTE = ('partial: aliasing is modelled with allocation identities, not a heap; the evaluator\'s discipline and locality '
+LEVEL_NOTE = ('(round 5: the one stateful object of the library, groupBy\'s GroupAggregator, is modelled with both lifetimes of '
+              'its state - per call, as in the code: every evaluation of a pool returns what the statement returns alone '
+              '(perCall_pool_independent); one object per registered function: shared_breaks_reuse, and shared_harmless_newStyle '
+              'explains why a suite that uses one style per context cannot see it; that NO registered function hides such state '
+              'is checked dynamically by the registry pool.)  partial: aliasing is modelled with allocation identities, not a heap; the evaluator\'s discipline and locality '
               'are hypotheses of the store-level theorems, discharged for the store-passing evaluator model of the core '
               'fragment (Model/EvalStore.lean: mutable context cells, a child context per function call, lambdas capturing '
               'context IDs; Props/C09Store.lean), which provably refines the C04 reference interpreter '
